@@ -2,10 +2,14 @@ package main
 
 import (
 	"bufio"
+	"bytes"
+	"crypto/sha256"
 	"flag"
 	"fmt"
 	"os"
 	"strings"
+
+	sdk "github.com/cosmos/cosmos-sdk/types"
 
 	"github.com/tendermint/fundraising/x/fundraising/keeper"
 )
@@ -36,7 +40,18 @@ func runHistory(w *bufio.Writer, id int, profile string, seed uint64, nOps int, 
 			o = g.Next()
 		}
 		nx, nt := len(e.xfers), len(e.trace)
+		e.ctx = e.ctx.WithEventManager(sdk.NewEventManager())
 		pre, res, post := e.Exec(o)
+		evh := sha256.New()
+		nev := 0
+		for _, ev := range e.ctx.EventManager().Events() {
+			nev++
+			evh.Write([]byte(ev.Type))
+			for _, a := range ev.Attributes {
+				evh.Write([]byte("|" + a.Key + "=" + a.Value))
+			}
+			evh.Write([]byte("\n"))
+		}
 		fmt.Fprintln(w, o.String())
 		for _, l := range pre {
 			fmt.Fprintln(w, l)
@@ -51,6 +66,7 @@ func runHistory(w *bufio.Writer, id int, profile string, seed uint64, nOps int, 
 		for _, l := range post {
 			fmt.Fprintln(w, l)
 		}
+		fmt.Fprintf(w, "EVH n=%d h=%x\n", nev, evh.Sum(nil)[:8])
 		for _, l := range e.Dump() {
 			fmt.Fprintln(w, l)
 		}
@@ -70,6 +86,7 @@ func main() {
 	profile := flag.String("profile", "", "generator profile (default: rotate)")
 	replay := flag.String("replay", "", "file with OP lines (several histories separated by HIST lines) to execute instead of generating")
 	out := flag.String("out", "-", "output file")
+	det := flag.Int("det", 1, "run every history this many times in-process and report differing logs (NONDET lines)")
 	flag.Parse()
 
 	var f *os.File = os.Stdout
@@ -121,6 +138,41 @@ func main() {
 		}
 		s := *seed*1000003 + uint64(id)*7919 + 17
 		nops := *ops
+		if *det > 1 {
+			// the same history several times in this process: every line of the log must be identical
+			var ref []byte
+			for k := 0; k < *det; k++ {
+				var buf bytes.Buffer
+				bw := bufio.NewWriter(&buf)
+				runHistory(bw, id, p, s, nops, nil)
+				bw.Flush()
+				if k == 0 {
+					ref = buf.Bytes()
+					w.Write(ref)
+					continue
+				}
+				if !bytes.Equal(ref, buf.Bytes()) {
+					a, b := strings.Split(string(ref), "\n"), strings.Split(buf.String(), "\n")
+					line, step, lastOp := 0, -1, ""
+					for line < len(a) && line < len(b) && a[line] == b[line] {
+						if strings.HasPrefix(a[line], "OP ") {
+							step++
+							lastOp = a[line]
+						}
+						line++
+					}
+					x, y := "", ""
+					if line < len(a) {
+						x = a[line]
+					}
+					if line < len(b) {
+						y = b[line]
+					}
+					fmt.Fprintf(w, "NONDET hist=%d run=%d step=%d op=[%s] first=[%s] other=[%s]\n", id, k, step, lastOp, x, y)
+				}
+			}
+			continue
+		}
 		runHistory(w, id, p, s, nops, nil)
 	}
 }
